@@ -184,6 +184,18 @@ func (w *World) indexFuncs(pats []string) {
 				}
 			}
 		}
+		// ... which are not package members: they are the callees of the synthetic package initializer
+		if pi := sp.Func("init"); pi != nil {
+			for _, b := range pi.Blocks {
+				for _, ins := range b.Instrs {
+					if c, ok := ins.(*ssa.Call); ok {
+						if fn := c.Call.StaticCallee(); fn != nil && fn.Pkg == sp && strings.HasPrefix(fn.Name(), "init#") && idx[fn.RelString(sp.Pkg)] == nil {
+							add(fn)
+						}
+					}
+				}
+			}
+		}
 	}
 }
 
